@@ -80,7 +80,7 @@ class RunResult(object):
 
 def execute(prog, faults, extractor=None, fail_save=False, rate=None, enabled=True, kind='memory', ignore_forced=False,
             skipped=False, copy=None, rng_seed=5, scripted_draws=None, recorder=None, spy=None, box=None, with_twin=True, built=None,
-            cls_name=None):
+            cls_name=None, caller_context='plain'):
     """Runs the decorated program under ``faults`` (and its twin). The caller closes res.box_cm if it is not None."""
     from playback.tape_recorder import TapeRecorder
     res = RunResult()
@@ -127,7 +127,7 @@ def execute(prog, faults, extractor=None, fail_save=False, rate=None, enabled=Tr
     import time as _t
     res.utc_before = _now_utc()
     res.t_before = _t.time()
-    res.outcome = res.live.run('live')
+    res.outcome = in_caller_context(caller_context, lambda: res.live.run('live'))
     if enabled and not res.recorder.recording_enabled:
         res.recorder.enable_recording()       # a 'disable' kill switch fired during the run; later runs record again
     res.t_after = _t.time()
@@ -138,6 +138,38 @@ def execute(prog, faults, extractor=None, fail_save=False, rate=None, enabled=Tr
         res.twin = Built(p, None, World(prog['seed_world'], raise_rate=prog['opts']['raise_rate']), faults=faults)
         res.twin_outcome = res.twin.run('live')
     return res
+
+
+CALLER_CONTEXTS = ('plain', 'except', 'except_interrupt', 'finally')
+
+
+def in_caller_context(kind, fn):
+    """Calls fn() the way service code calls an operation from a compensating / clean-up path: while the caller is handling an
+    ordinary exception, an interrupt-style one, or inside a finally block an exception is passing through."""
+    from vlib.values import UserError2, InterruptLike
+    if kind == 'plain':
+        return fn()
+    if kind == 'except':
+        try:
+            raise UserError2('caller is handling this')
+        except UserError2:
+            return fn()
+    if kind == 'except_interrupt':
+        try:
+            raise InterruptLike('caller is handling this')
+        except InterruptLike:
+            return fn()
+    if kind == 'finally':
+        box = []
+        try:
+            try:
+                raise UserError2('passing through the caller')
+            finally:
+                box.append(fn())
+        except UserError2:
+            pass
+        return box[0]
+    raise ValueError(kind)
 
 
 def _now_utc():
